@@ -191,6 +191,12 @@ pub struct St {
     pub mute: bool,
     /// run generation; threads of an aborted generation stay parked for ever (they are never unwound)
     pub gen: u64,
+    /// epoch-protocol conformance: value of the manager's epoch, blocks handed over for deferred release with
+    /// the epoch at that time, number of live (allocated, not yet retired) tokens
+    pub mm_epoch_addr: usize,
+    pub cur_epoch: usize,
+    pub retired: HashMap<usize, usize>,
+    pub live_tokens: isize,
 }
 
 pub struct Rt {
@@ -239,6 +245,10 @@ impl St {
             phase: 0,
             mute: false,
             gen: 0,
+            mm_epoch_addr: 0,
+            cur_epoch: 0,
+            retired: HashMap::new(),
+            live_tokens: 0,
         }
     }
 
@@ -588,6 +598,9 @@ impl Rt {
         if st.abort || !st.active {
             return;
         }
+        if kind == K::Shim(OpKind::Store) && addr != 0 && addr == st.mm_epoch_addr {
+            st.cur_epoch = val;
+        }
         if st.is_transparent(kind, addr, arg) {
             return;
         }
@@ -599,6 +612,9 @@ impl Rt {
                         ro = true;
                     }
                     st.lastval.insert(addr, val);
+                    if addr != 0 && addr == st.mm_epoch_addr {
+                        st.cur_epoch = val;
+                    }
                 }
                 OpKind::Load => {
                     st.lastval.insert(addr, val);
@@ -731,8 +747,19 @@ impl vh::Runtime for Rt {
         };
         self.done(K::Shim(kind), addr, arg, val, ok);
     }
+    fn on_retire(&self, addr: usize) {
+        let mut st = self.lock();
+        let e = st.cur_epoch;
+        st.retired.insert(addr, e);
+        if st.allocs.get(&addr).map(|a| a.2.contains("MemToken")).unwrap_or(false) {
+            st.live_tokens -= 1;
+        }
+    }
     fn on_alloc(&self, addr: usize, bytes: usize, ty: &'static str) {
         let mut st = self.lock();
+        if ty.contains("MemToken") {
+            st.live_tokens += 1;
+        }
         st.alloc_seq += 1;
         let seq = st.alloc_seq;
         st.allocs.insert(addr, (bytes, 0, ty, seq));
@@ -740,6 +767,14 @@ impl vh::Runtime for Rt {
     fn on_dealloc(&self, addr: usize, bytes: usize, align: usize) -> bool {
         let mut st = self.lock();
         let known = st.allocs.remove(&addr);
+        if let Some(e) = st.retired.remove(&addr) {
+            // epoch protocol: a block handed over for deferred release may only be released after an epoch
+            // change that followed the hand-over (teardown, when no handle owns a token any more, excepted)
+            if e >= st.cur_epoch && st.live_tokens > 0 && st.active && !st.abort {
+                let (ce, lt) = (st.cur_epoch, st.live_tokens);
+                st.api.push(json!({"e":"earlyfree","blk":(addr & 0x3fff_ffff),"retired_at":e,"epoch":ce,"tokens":lt}));
+            }
+        }
         if known.is_none() && st.active && !st.abort {
             st.api.push(json!({"e":"badfree","blk":(addr & 0x3fff_ffff)}));
         }
